@@ -64,6 +64,21 @@ class RegexLang:
             self.ok = False
             self.alts = []
 
+    def anchored(self, how):
+        """the language as used by .match() (start anchored) / .fullmatch() (both ends) / .search()"""
+        if how == 'search' or (how == 'match' and self.anch_start) or not self.ok:
+            return self
+        cache = self.__dict__.setdefault('_anch', {})
+        if how not in cache:
+            import copy
+            n = copy.copy(self)
+            n.__dict__.pop('_anch', None)
+            n.anch_start = True
+            if how == 'fullmatch' and n.anch_end != 'Z':
+                n.anch_end = 'Z'
+            cache[how] = n
+        return cache[how]
+
     # ---- classes
     def _cat(self, cat, negate=False):
         B = self.B
@@ -150,6 +165,13 @@ class RegexLang:
         if op is C.SUBPATTERN:
             gid, _af, _df, sub = av
             subalts = self._seq(list(sub))
+            if len(alts) * len(subalts) > MAXALT // 2 and not getattr(self, '_ranged', False):
+                # too many combinations: keep bounded repeats inside the group as ranged items
+                self._ranged = True
+                try:
+                    subalts = self._seq(list(sub))
+                finally:
+                    self._ranged = False
             out = []
             for a in alts:
                 for s in subalts:
@@ -189,7 +211,7 @@ class RegexLang:
                     for a in alts:
                         a.items.extend(Item(cls) for _ in range(lo))
                     return alts
-                if hi is not None and hi - lo <= 8 and hi <= 40:
+                if hi is not None and hi - lo <= 8 and hi <= 40 and len(alts) * (hi - lo + 1) <= 16 and not getattr(self, '_ranged', False):
                     out = []
                     for a in alts:
                         for k in range(lo, hi + 1):
